@@ -148,7 +148,7 @@ def run(ctx: Ctx) -> None:
                         until_eof=(i % 4 == 1))
             g.parse([], meter)
             g.parse(G.random_cuts(rng, len(s), 2), meter)
-            if i % 8 == 0 and mode == "request":
+            if i % 8 == 0 and mode == "request" and g.lim is H.DEFAULT_LIMITS:
                 g.conn(dh, [])
             if i % 8 == 1 and mode == "response":
                 g.client([])
